@@ -23,6 +23,7 @@ RULE = ('Hypothesis: the abstract class diagrams of C14 (synthesised, and the on
 ASSUMPTIONS = [
     'simple types for predefined non-supported global types (void, date, timestamp, inst_ref<...>) are neither demanded nor forbidden',
     'attribute order inside an element is not compared',
+    'the data types in scope of a component have distinct names (two types of one name in different packages give two simple types of one name on the pinned tree - not a schema any processor accepts; what should be declared there is not stated)',
 ]
 
 XS = '{http://www.w3.org/2001/XMLSchema}'
